@@ -12,6 +12,9 @@ package http2
 
 import (
 	"context"
+	"net"
+	"net/http"
+	"time"
 
 	"github.com/wi1dcard/fingerproxy/pkg/metadata"
 	"golang.org/x/net/http2/hpack"
@@ -20,8 +23,55 @@ import (
 //verif:replace (*serverConn).processSettings
 func c07processSettings(sc *serverConn, f *SettingsFrame) error { return nil }
 
-//verif:replace (*serverConn).processHeaders
-func c07processHeaders(sc *serverConn, f *MetaHeadersFrame) error { return nil }
+// The real processHeaders runs (it creates the stream and the request whose context the handler
+// gets); what it would write and the handler goroutine itself are stubs: the handler's work - the
+// Marshal below - is thread 0 of this harness.
+//
+//verif:replace (*serverConn).writeFrame
+func c07writeFrame(sc *serverConn, wr FrameWriteRequest) {}
+
+//verif:replace (*serverConn).scheduleFrameWrite
+func c07scheduleFrameWrite(sc *serverConn) {}
+
+var c07Requests []*http.Request
+
+//verif:replace (*serverConn).runHandler
+func c07runHandler(sc *serverConn, rw *responseWriter, req *http.Request, handler func(http.ResponseWriter, *http.Request)) {
+	c07Requests = append(c07Requests, req)
+}
+
+type c07Handler struct{}
+
+func (c07Handler) ServeHTTP(http.ResponseWriter, *http.Request) {}
+
+type c07Conn struct{}
+
+func (c07Conn) Read([]byte) (int, error)         { return 0, nil }
+func (c07Conn) Write(b []byte) (int, error)      { return len(b), nil }
+func (c07Conn) Close() error                     { return nil }
+func (c07Conn) LocalAddr() net.Addr              { return c07Addr{} }
+func (c07Conn) RemoteAddr() net.Addr             { return c07Addr{} }
+func (c07Conn) SetDeadline(time.Time) error      { return nil }
+func (c07Conn) SetReadDeadline(time.Time) error  { return nil }
+func (c07Conn) SetWriteDeadline(time.Time) error { return nil }
+
+type c07Addr struct{}
+
+func (c07Addr) Network() string { return "tcp" }
+func (c07Addr) String() string  { return "192.0.2.7:1" }
+
+func c07ServerConn(ctx context.Context) *serverConn {
+	sc := &serverConn{
+		srv: &Server{}, hs: &http.Server{}, conn: c07Conn{}, baseCtx: ctx, handler: c07Handler{},
+		streams: map[uint32]*stream{}, writeSched: newRoundRobinWriteScheduler(),
+		initialStreamSendWindowSize: 65535, initialStreamRecvWindowSize: 1 << 20, maxFrameSize: 16384,
+		clientMaxStreams: 100, advMaxStreams: 100, pushEnabled: true, sawFirstSettings: true,
+	}
+	sc.hpackEncoder = hpack.NewEncoder(&sc.headerWriteBuf)
+	sc.flow.n = 65535
+	sc.inflow.avail = 1 << 20
+	return sc
+}
 
 //verif:replace (*serverConn).processWindowUpdate
 func c07processWindowUpdate(sc *serverConn, f *WindowUpdateFrame) error { return nil }
@@ -42,8 +92,8 @@ func c07Frames(n int) []Frame {
 		case 2:
 			out = append(out, &WindowUpdateFrame{FrameHeader: FrameHeader{valid: true, Type: FrameWindowUpdate, Length: 4}, Increment: uint32(vU8(vName("later.incr", i))) + 1})
 		case 3:
-			out = append(out, &MetaHeadersFrame{HeadersFrame: &HeadersFrame{FrameHeader: FrameHeader{valid: true, Type: FrameHeaders, Flags: FlagHeadersEndHeaders, StreamID: uint32(3 + 2*i)}},
-				Fields: []hpack.HeaderField{{Name: ":path", Value: "/"}, {Name: ":method", Value: "GET"}}})
+			out = append(out, &MetaHeadersFrame{HeadersFrame: &HeadersFrame{FrameHeader: FrameHeader{valid: true, Type: FrameHeaders, Flags: FlagHeadersEndHeaders | FlagHeadersEndStream, StreamID: uint32(3 + 2*i)}},
+				Fields: []hpack.HeaderField{{Name: ":path", Value: "/"}, {Name: ":method", Value: "GET"}, {Name: ":scheme", Value: "https"}}})
 		}
 	}
 	return out
@@ -51,27 +101,40 @@ func c07Frames(n int) []Frame {
 
 func c07Run(n int) {
 	DebugGoroutines = false
-	ctx, md := metadata.NewContext(context.Background())
-	sc := &serverConn{baseCtx: ctx, sawFirstSettings: true}
-	sc.inflow.avail = 1 << 20
+	c07Requests = nil
+	ctx, connMD := metadata.NewContext(context.Background())
+	sc := c07ServerConn(ctx)
 	// the connection so far: the client's SETTINGS, one WINDOW_UPDATE or none, the request's HEADERS
 	sc.processFrame(&SettingsFrame{FrameHeader: FrameHeader{valid: true, Type: FrameSettings, Length: 6}, p: []byte{0, 3, 0, 0, 0, 100}})
 	if vBool("earlier.windowUpdate") {
 		sc.processFrame(&WindowUpdateFrame{FrameHeader: FrameHeader{valid: true, Type: FrameWindowUpdate, Length: 4}, Increment: 15663105})
 	}
-	sc.processFrame(&MetaHeadersFrame{HeadersFrame: &HeadersFrame{FrameHeader: FrameHeader{valid: true, Type: FrameHeaders, Flags: FlagHeadersEndHeaders | FlagHeadersPriority, StreamID: 1}, Priority: PriorityParam{Weight: 200}},
+	sc.processFrame(&MetaHeadersFrame{HeadersFrame: &HeadersFrame{FrameHeader: FrameHeader{valid: true, Type: FrameHeaders, Flags: FlagHeadersEndHeaders | FlagHeadersEndStream | FlagHeadersPriority, StreamID: 1}, Priority: PriorityParam{Weight: 200}},
 		Fields: []hpack.HeaderField{{Name: ":method", Value: "GET"}, {Name: ":path", Value: "/"}, {Name: ":scheme", Value: "https"}}})
+	// the handler goroutine of that request: started by the real processHeaders with the real request;
+	// like a header injector it takes the record from the request's context
+	vRunSpawned("runHandler")
+	if len(c07Requests) != 1 {
+		vFail("request-dispatched")
+		return
+	}
+	md, ok := metadata.FromContext(c07Requests[0].Context())
+	if !ok {
+		vFail("request-context-carries-metadata")
+		return
+	}
 
 	later := c07Frames(n)
 	// the fingerprint at every instant from "request's HEADERS captured" on (computed without concurrency)
-	snaps := []string{md.HTTP2Frames.Marshal(^uint(0))}
+	snaps := []string{connMD.HTTP2Frames.Marshal(^uint(0))}
 	{
 		ctx2, md2 := metadata.NewContext(context.Background())
-		sc2 := &serverConn{baseCtx: ctx2, sawFirstSettings: true}
-		md2.HTTP2Frames.Settings = append([]metadata.Setting{}, md.HTTP2Frames.Settings...)
-		md2.HTTP2Frames.WindowUpdateIncrement = md.HTTP2Frames.WindowUpdateIncrement
-		md2.HTTP2Frames.Priorities = append([]metadata.Priority{}, md.HTTP2Frames.Priorities...)
-		md2.HTTP2Frames.Headers = append([]metadata.HeaderField{}, md.HTTP2Frames.Headers...)
+		sc2 := c07ServerConn(ctx2)
+		md2.HTTP2Frames.Settings = append([]metadata.Setting{}, connMD.HTTP2Frames.Settings...)
+		md2.HTTP2Frames.WindowUpdateIncrement = connMD.HTTP2Frames.WindowUpdateIncrement
+		md2.HTTP2Frames.Priorities = append([]metadata.Priority{}, connMD.HTTP2Frames.Priorities...)
+		md2.HTTP2Frames.Headers = append([]metadata.HeaderField{}, connMD.HTTP2Frames.Headers...)
+		sc2.maxClientStreamID = 1
 		for _, f := range later {
 			sc2.processFrame(f)
 			snaps = append(snaps, md2.HTTP2Frames.Marshal(^uint(0)))
@@ -80,7 +143,13 @@ func c07Run(n int) {
 
 	// thread 1: the serve loop goes on capturing while the handler renders
 	next := 0
-	vWatchFields(&md.HTTP2Frames)
+	// "no unsynchronised concurrent access to the connection's captured data": what handlers read must
+	// not be the record the serve loop keeps writing
+	vAssert(md != connMD, "handler-does-not-share-the-serve-loops-record")
+	vWatchFields(&md.HTTP2Frames) // what the handler reads: every load is a preemption point
+	if md != connMD {
+		vWatchFields(&connMD.HTTP2Frames)
+	}
 	vSetAccessHook(func() {
 		for next < len(later) && vBool(vName("arrives.before.read", vWatchedReads(), next)) {
 			sc.processFrame(later[next])
@@ -94,11 +163,11 @@ func c07Run(n int) {
 	if next > 0 {
 		vReach("frames-arrived-while-rendering")
 	}
-	ok := false
+	oneInstant := false
 	for i := 0; i <= next; i++ {
-		ok = vOr(ok, got == snaps[i])
+		oneInstant = vOr(oneInstant, got == snaps[i])
 	}
-	vAssert(ok, "fingerprint-of-one-instant")
+	vAssert(oneInstant, "fingerprint-of-one-instant")
 }
 
 func VerifC07_snapshot_quick()    { c07Run(2) }
